@@ -22,7 +22,28 @@ Variable big : F -> bool.       (* |v| > zero_tol *)
 Definition bsr_to_csr br bc (A : csr (list F)) : csr F :=
   let E := bsr_expand br bc A in
   coo_to_csr (mkCoo (coo_nr E) (coo_nc E) (filter (fun e => big (eval e)) (coo_ents E))).
+
+(* block transposes (after the fix: to_BCOO, exchange the block indices and the dimensions, transpose every block,
+   convert back): a br x bc row-major block becomes the bc x br row-major block with entry (c, r) = old entry (r, c) *)
+Definition tblock (br bc : nat) (blk : list F) : list F :=
+  flat_map (fun c => map (fun r => nth (r * bc + c) blk zero) (seq 0 br)) (seq 0 bc).
+Definition bcoo_transpose br bc (A : coo (list F)) : coo (list F) :=
+  mkCoo (coo_nc A) (coo_nr A) (map (fun e => (ecol e, erow e, tblock br bc (eval e))) (coo_ents A)).
+Definition bsr_transpose br bc (A : csr (list F)) : csr (list F) := coo_to_csr (bcoo_transpose br bc (csr_to_coo A)).
+Definition bsc_transpose br bc (A : csc (list F)) : csc (list F) := coo_to_csc (bcoo_transpose br bc (csc_to_coo A)).
 End Block.
 
+(* value maps: the (r, c) slice of a block matrix is the scalar matrix of the blocks' (r, c) entries *)
+Section Maps.
+Variables T U : Type.
+Variable g : T -> U.
+Definition coo_map (A : coo T) : coo U :=
+  mkCoo (coo_nr A) (coo_nc A) (map (fun e => (erow e, ecol e, g (eval e))) (coo_ents A)).
+Definition line_map (r : list (nat * T)) : list (nat * U) := map (fun p => (fst p, g (snd p))) r.
+Definition csr_map (A : csr T) : csr U := mkCsr (csr_nr A) (csr_nc A) (map line_map (csr_rows A)).
+Definition csc_map (A : csc T) : csc U := mkCsc (csc_nr A) (csc_nc A) (map line_map (csc_cols A)).
+End Maps.
+Arguments coo_map {T U}. Arguments line_map {T U}. Arguments csr_map {T U}. Arguments csc_map {T U}.
+
 Arguments expand_ent {F}. Arguments bcoo_expand {F}. Arguments bsr_expand {F}. Arguments bsc_expand {F}.
-Arguments bsr_to_csr {F}.
+Arguments bsr_to_csr {F}. Arguments tblock {F}. Arguments bcoo_transpose {F}. Arguments bsr_transpose {F}. Arguments bsc_transpose {F}.
